@@ -224,6 +224,7 @@ func runC11(p *load.Program, r *oblig.Report) {
 	c.ruleR4()
 	c.ruleR5()
 	c.ruleR6()
+	c.ruleR7()
 }
 
 // ruleR1: broker errors raised mid-frame are followed by a drain.
@@ -686,6 +687,38 @@ func (c *c11ctx) ruleR6() {
 
 func (c *c11ctx) batchCloseDrains(rule string) {
 	p, r := c.p, c.r
+	// the drain itself: messageSetReader.discard rewinds to the outermost reader (the only one backed by the
+	// connection) and discards everything that remains of the response there
+	if dis := p.Func("", "(*messageSetReader).discard"); dis == nil {
+		r.Lost(rule, "kafka.(*messageSetReader).discard")
+	} else {
+		var dn *ssa.Call
+		an.EachInstr(dis, func(ins ssa.Instruction) {
+			if call, ok := ins.(*ssa.Call); ok && call.Call.StaticCallee() != nil && an.RefFuncName(call.Call.StaticCallee()) == "discardN" {
+				dn = call
+			}
+		})
+		okRewind, okAll := false, false
+		if dn != nil {
+			// dominated by the exit edge of a loop whose test is `r.parent != nil`
+			for d, child := dn.Block().Idom(), dn.Block(); d != nil; d, child = d.Idom(), d {
+				_, ci := an.IfCond(d)
+				e := ci.Edge(token.EQL)
+				if e < 0 || !an.IsNilConst(ci.Y) || !strings.HasSuffix(clean(an.Shape(ci.X)), ".parent") {
+					continue
+				}
+				if !edgeControls(d, e, child) {
+					continue
+				}
+				// the other edge assigns readerStack = parent and comes back to the test
+				q := an.PathQuery{Fn: dis, Target: func(i ssa.Instruction) bool { return i.Block() == d && i == d.Instrs[0] }}
+				okRewind = q.ReachableFrom(an.Point{B: d.Succs[1-e], Idx: -1}) != nil
+			}
+			okAll = strings.HasSuffix(clean(an.Shape(dn.Call.Args[len(dn.Call.Args)-1])), ".remain")
+		}
+		r.Check(dn != nil && okRewind && okAll, rule, "kafka.(*messageSetReader).discard rewinds to the outermost reader and discards all that remains there", p.Pos(dis.Pos()),
+			"for r.parent != nil { r.readerStack = r.parent }; r.discardN(r.remain)", fmt.Sprintf("rewindLoopBeforeDrain=%v drainsRemain=%v", okRewind, okAll))
+	}
 	bc := p.Func("", "(*Batch).close")
 	if bc == nil {
 		r.Lost(rule, "kafka.(*Batch).close")
@@ -714,4 +747,89 @@ func (c *c11ctx) batchCloseDrains(rule string) {
 		where = "a path with msgs != nil and conn != nil returns at " + p.Pos(bad.Pos()) + " without discarding the remainder or closing the connection"
 	}
 	r.Check(ok, rule, "kafka.(*Batch).close", p.Pos(bc.Pos()), "msgs.discard() or conn.Close() on every path that had a message set and a connection", where)
+}
+
+// ruleR7: once the read lock of a fetch response has been obtained, the Batch that is returned owns the connection and
+// that lock: Batch.close is the only place that drains the response or closes the connection (R6), so a Batch built
+// without them leaves a connection with unread response bytes in use.
+func (c *c11ctx) ruleR7() {
+	const rule = "C11.R7 a fetch response is handed to the Batch with its connection and read lock"
+	p, r := c.p, c.r
+	fn := p.Func("", "(*Conn).ReadBatchWith")
+	wait := p.Func("", "(*Conn).waitResponse")
+	if fn == nil || wait == nil {
+		r.Lost(rule, "kafka.(*Conn).ReadBatchWith / waitResponse")
+		return
+	}
+	var call *ssa.Call
+	an.EachInstr(fn, func(ins ssa.Instruction) {
+		if x, ok := ins.(*ssa.Call); ok && an.StaticCalleeIs(&x.Call, wait) {
+			call = x
+		}
+	})
+	if call == nil {
+		r.Lost(rule, "call of waitResponse in kafka.(*Conn).ReadBatchWith")
+		return
+	}
+	// the block entered when waitResponse returned no error
+	var success *ssa.BasicBlock
+	for _, b := range an.Blocks(fn) {
+		_, ci := an.IfCond(b)
+		e := ci.Edge(token.EQL)
+		if e < 0 || !an.IsNilConst(ci.Y) {
+			continue
+		}
+		if ex, ok := an.Unwrap(ci.X).(*ssa.Extract); ok && ex.Tuple == call && ex.Index == 3 {
+			success = b.Succs[e]
+		}
+	}
+	if success == nil {
+		r.Lost(rule, "error test of waitResponse in kafka.(*Conn).ReadBatchWith")
+		return
+	}
+	n := 0
+	var bad []string
+	an.EachInstr(fn, func(ins ssa.Instruction) {
+		al, ok := ins.(*ssa.Alloc)
+		if !ok || !an.NamedIs(al.Type(), load.ModPath, "Batch") {
+			return
+		}
+		if len(success.Instrs) == 0 || !an.Dominates(success.Instrs[0], al) {
+			return
+		}
+		n++
+		conn, lock := "", ""
+		for _, ref := range *al.Referrers() {
+			fa, ok := ref.(*ssa.FieldAddr)
+			if !ok {
+				continue
+			}
+			for _, u := range *fa.Referrers() {
+				st, ok := u.(*ssa.Store)
+				if !ok || st.Addr != fa {
+					continue
+				}
+				switch an.FieldName(fa.X.Type(), fa.Field) {
+				case "conn":
+					conn = clean(an.Shape(st.Val))
+				case "lock":
+					lock = clean(an.Shape(st.Val))
+				}
+			}
+		}
+		closed := false
+		an.EachInstr(fn, func(i2 ssa.Instruction) {
+			if cl, ok := i2.(*ssa.Call); ok && isConnClose(&cl.Call) && an.Dominates(cl, al) {
+				closed = true
+			}
+		})
+		okConn := conn == an.ParamName(fn.Params[0])
+		okLock := strings.Contains(lock, "waitResponse(") && strings.HasSuffix(lock, "#2")
+		if !(closed || (okConn && okLock)) {
+			bad = append(bad, fmt.Sprintf("%s: conn=%q lock=%q", p.Pos(al.Pos()), conn, lock))
+		}
+	})
+	r.Check(len(bad) == 0 && n > 0, rule, "kafka.(*Conn).ReadBatchWith: every Batch built after waitResponse succeeded", p.Pos(fn.Pos()),
+		"Batch{conn: c, lock: <lock returned by waitResponse>} (or the connection is closed first)", strings.Join(bad, "; "))
+	r.RequireCount(rule, n, 1)
 }
